@@ -3,7 +3,7 @@
 
 Reads (relative to <repo>/src):
   celma/log/detail/log_defs.hpp                      LogClass / LogLevel enumerators (order, count),
-                                                     logClass2text / logLevel2text switches,
+                                                     logClass2text / logLevel2text switches or guarded table lookups,
                                                      the loops of text2logClass / text2logLevel
   celma/log/filter/detail/log_filter_classes.hpp     std::bitset< EXPR > size, the indexing in pass()
   library/log/filter/detail/log_filter_classes.cpp   separator, the two `throw`s, the `set( ...)`
@@ -116,9 +116,196 @@ def enum_of(ix, name):
 
 
 def text_switch(ix, nm, func, enum, names):
-    """[(index, text)] in source order, default text — from a switch or an equivalent chain of ifs"""
+    """[(index, text)] and the default text — from a switch / an equivalent chain of ifs (rows in source order), or from
+    a lookup in a constant table guarded by range checks (one row per enumerator)"""
     f = ix.func(None, func, nparams=1)
-    t = nm.beh(f)
+    t = nm.beh(f, ucast=True)
+    if is_table_form(t):
+        return text_table(ix, t, func, enum, names)
+    return text_chain(t, func, enum, names)
+
+
+def is_table_form(t):
+    return any(isinstance(x, tuple) and x[:1] in (("table",), ("ucast",)) for x in walk(t))
+
+
+INT_MIN, INT_MAX = -(1 << 31), (1 << 31) - 1
+
+
+def text_table(ix, t, func, enum, names, only=None):
+    """(With `only=k`: the text for the single argument value k, nothing else is looked at.)
+    The function is evaluated for EVERY value p of its argument (an enumeration with underlying type int): the set of
+    values that reach a leaf is kept as a list of intervals; a condition must compare p, p converted to an unsigned
+    type, or such a term plus / minus a constant, with a constant (or test p == enumerator); a leaf returns a string
+    literal or an element of a constant table of string literals (every index that reaches it must lie inside the
+    table).  Result: one row per enumerator and the one text that all other values give."""
+    if ix.enum_base.get(enum, ""):
+        raise TranslateError("%s: enum %s has an explicit underlying type: not understood" % (func, enum))
+    n = len(names)
+    P0 = ("id", "$p0")
+
+    def const(e):
+        try:
+            return _plain_const(e, enum, names)
+        except TranslateError:
+            return None
+
+    def pieces(term, ivs):
+        # [(lo, hi, b)]: on lo <= p <= hi the term has the value p + b
+        if term == P0:
+            return [(lo, hi, 0) for lo, hi in ivs]
+        if term[0] == "ucast":
+            out = []
+            for lo, hi, b in pieces(term[2], ivs):
+                out += _wrap(lo, hi, b, term[1])
+            return out
+        if term[0] == "bin" and term[1] in ("+", "-"):
+            c = const(term[3])
+            inner = term[2]
+            if c is None and term[1] == "+":
+                c, inner = const(term[2]), term[3]
+            if c is not None:
+                if term[1] == "-":
+                    c = -c
+                ps = [(lo, hi, b + c) for lo, hi, b in pieces(inner, ivs)]
+                if inner[0] == "ucast" and inner[1] >= 32:     # unsigned arithmetic wraps
+                    out = []
+                    for lo, hi, b in ps:
+                        out += _wrap(lo, hi, b, inner[1])
+                    return out
+                if inner[0] == "ucast":
+                    raise TranslateError("%s: arithmetic on a promoted %d-bit value in `%s` not understood" % (func, inner[1], show(term)))
+                for lo, hi, b in ps:
+                    if not (INT_MIN <= lo + b and hi + b <= INT_MAX):
+                        raise TranslateError("%s: signed overflow in `%s`" % (func, show(term)))
+                return ps
+        raise TranslateError("%s: term `%s` not understood" % (func, show(term)))
+
+    def _wrap(lo, hi, b, bits):
+        # p + b reduced modulo 2^bits
+        out = []
+        m0, m1 = (lo + b) >> bits, (hi + b) >> bits
+        if m1 - m0 > 8:
+            raise TranslateError("%s: conversion of the argument to a %d-bit type not understood" % (func, bits))
+        for m in range(m0, m1 + 1):
+            l2, h2 = max(lo, (m << bits) - b), min(hi, ((m + 1) << bits) - 1 - b)
+            if l2 <= h2:
+                out.append((l2, h2, b - (m << bits)))
+        return out
+
+    def split(c, ivs):
+        """(intervals where c holds, intervals where it does not)"""
+        if c[0] in ("bool", "num"):
+            return (ivs, []) if c[1] else ([], ivs)
+        if c[0] == "un" and c[1] == "!":
+            a, b = split(c[2], ivs)
+            return b, a
+        if c[0] == "bin" and c[1] in ("<", "<=", "=="):
+            ca, cb = const(c[2]), const(c[3])
+            if ca is not None and cb is not None:
+                r = {"<": ca < cb, "<=": ca <= cb, "==": ca == cb}[c[1]]
+                return (ivs, []) if r else ([], ivs)
+            if (ca is None) == (cb is None):
+                raise TranslateError("%s: condition `%s` not understood" % (func, show(c)))
+            yes, no = [], []
+            if cb is not None:
+                term, k, op = c[2], cb, c[1]            # term OP k
+            else:
+                term, k, op = c[3], ca, {"<": ">", "<=": ">=", "==": "=="}[c[1]]     # k OP' term
+            for lo, hi, b in pieces(term, ivs):
+                # value p + b; the set of p in [lo, hi] with (p + b) op k
+                if op == "<":
+                    a0, a1 = lo, min(hi, k - b - 1)
+                elif op == "<=":
+                    a0, a1 = lo, min(hi, k - b)
+                elif op == ">":
+                    a0, a1 = max(lo, k - b + 1), hi
+                elif op == ">=":
+                    a0, a1 = max(lo, k - b), hi
+                else:
+                    a0, a1 = max(lo, k - b), min(hi, k - b)
+                if a0 <= a1:
+                    yes.append((a0, a1))
+                    if lo < a0:
+                        no.append((lo, a0 - 1))
+                    if a1 < hi:
+                        no.append((a1 + 1, hi))
+                else:
+                    no.append((lo, hi))
+            return yes, no
+        raise TranslateError("%s: condition `%s` not understood" % (func, show(c)))
+
+    exact = {}          # p -> text, from table leaves
+    ranges = []         # (lo, hi, text), from literal leaves
+
+    def go(t, ivs):
+        if not ivs:
+            return
+        if t[0] == "ite":
+            yes, no = split(t[1], ivs)
+            go(t[2], yes)
+            go(t[3], no)
+            return
+        if t[0] == "ret" and t[1][0] == "str":
+            ranges.extend((lo, hi, t[1][1]) for lo, hi in ivs)
+            return
+        if t[0] == "ret" and t[1][0] == "index" and t[1][1][0] == "table":
+            tbl = t[1][1][2]
+            for lo, hi, b in pieces(t[1][2], ivs):
+                if lo + b < 0 or hi + b >= len(tbl):
+                    bad = lo if lo + b < 0 else hi
+                    raise TranslateError("%s: for the argument value %d the table of %d texts is read at index %d"
+                                         % (func, bad, len(tbl), bad + b))
+                for p in range(lo, hi + 1):
+                    if tbl[p + b][0] != "str":
+                        raise TranslateError("%s: table element `%s` is not a text" % (func, show(tbl[p + b])))
+                    exact[p] = tbl[p + b][1]
+            return
+        raise TranslateError("%s: `%s` not understood" % (func, show(t)[:160]))
+
+    go(t, [(INT_MIN, INT_MAX)] if only is None else [(only, only)])
+    # every value is covered exactly once by construction; rows of the enumerators, one text for all other values
+    def text_of_value(p):
+        if p in exact:
+            return exact[p]
+        for lo, hi, s in ranges:
+            if lo <= p <= hi:
+                return s
+        raise TranslateError("%s: no result for the argument value %d" % (func, p))
+
+    if only is not None:
+        return text_of_value(only)
+    cases = [(k, text_of_value(k)) for k in range(n)]
+    outside = set(s for p, s in exact.items() if not 0 <= p < n)
+    for lo, hi, s in ranges:
+        if lo < 0 or hi >= n:
+            outside.add(s)
+    if len(outside) != 1:
+        raise TranslateError("%s: values that are no enumerators of %s give the texts %s: not understood"
+                             % (func, enum, sorted(outside)))
+    default = outside.pop()
+    for _, txt in cases + [(None, default)]:
+        if "\\" in txt:
+            raise TranslateError("%s: escape sequence in text %r" % (func, txt))
+    return cases, default
+
+
+def _plain_const(e, enum, names):
+    """integer value of a constant expression (enumerators of `enum` by position)"""
+    k = e[0]
+    if k == "num":
+        return e[1]
+    if k == "bool":
+        return int(e[1])
+    if k == "id" and e[1].startswith(enum + "::") and e[1][len(enum) + 2:] in names:
+        return names.index(e[1][len(enum) + 2:])
+    if k == "bin" and e[1] in ("+", "-", "*"):
+        a, b = _plain_const(e[2], enum, names), _plain_const(e[3], enum, names)
+        return a + b if e[1] == "+" else a - b if e[1] == "-" else a * b
+    raise TranslateError("not a constant")
+
+
+def text_chain(t, func, enum, names):
     cases = []
     while t[0] == "ite":
         c = t[1]
@@ -544,7 +731,22 @@ def class_text_table(repo):
     """{index: display text} of the log classes plus 'n' = number of classes (used by the plugin's reference)"""
     ix, nm = load(repo)
     classes = enum_names(ix, "LogClass")
-    cases, _ = text_switch(ix, nm, "logClass2text", "LogClass", classes)
+    try:
+        cases, _ = text_switch(ix, nm, "logClass2text", "LogClass", classes)
+    except TranslateError:
+        # The translation of the function as a whole failed (and was reported as a broken tie by translate()).  The
+        # plugin still needs the NAMES to generate inputs and for its reference: with the table form they are read
+        # value by value, for the enumerators only; an enumerator whose own lookup cannot be followed (e.g. it reads
+        # outside the table) gets no name, so the reference treats its text as unknown.
+        t = nm.beh(ix.func(None, "logClass2text", nparams=1), ucast=True)
+        if not is_table_form(t):
+            raise
+        cases = []
+        for k in range(len(classes)):
+            try:
+                cases.append((k, text_table(ix, t, "logClass2text", "LogClass", classes, only=k)))
+            except TranslateError:
+                pass
     out = {i: t for i, t in cases if i != 0}
     out["n"] = len(classes)
     return out
